@@ -32,11 +32,11 @@ import (
 
 type V3 [3]float64
 
-func (a V3) sub(b V3) V3       { return V3{a[0] - b[0], a[1] - b[1], a[2] - b[2]} }
-func (a V3) add(b V3) V3       { return V3{a[0] + b[0], a[1] + b[1], a[2] + b[2]} }
-func (a V3) mul(t float64) V3  { return V3{a[0] * t, a[1] * t, a[2] * t} }
-func (a V3) dot(b V3) float64  { return a[0]*b[0] + a[1]*b[1] + a[2]*b[2] }
-func (a V3) norm() float64     { return math.Sqrt(a.dot(a)) }
+func (a V3) sub(b V3) V3          { return V3{a[0] - b[0], a[1] - b[1], a[2] - b[2]} }
+func (a V3) add(b V3) V3          { return V3{a[0] + b[0], a[1] + b[1], a[2] + b[2]} }
+func (a V3) mul(t float64) V3     { return V3{a[0] * t, a[1] * t, a[2] * t} }
+func (a V3) dot(b V3) float64     { return a[0]*b[0] + a[1]*b[1] + a[2]*b[2] }
+func (a V3) norm() float64        { return math.Sqrt(a.dot(a)) }
 func (a V3) vec() vector3.Float64 { return vector3.New(a[0], a[1], a[2]) }
 func (a V3) cross(b V3) V3 {
 	return V3{a[1]*b[2] - a[2]*b[1], a[2]*b[0] - a[0]*b[2], a[0]*b[1] - a[1]*b[0]}
@@ -182,7 +182,7 @@ func coqShape(s Shape) string {
 }
 
 // vlineInCoq: Check/C19.v has the constructor SVLine (the generated VarryingThicknessLine)
-const vlineInCoq = false
+const vlineInCoq = true
 
 // coqable: the shape can be rendered as a Check.C19 shape
 func coqable(s Shape) bool {
@@ -408,7 +408,10 @@ func callField(s Shape, p V3) (v float64, perr string) {
 	return build(s)(p.vec()), ""
 }
 
-func (h *H) addEval(d evalDesc, kind string) {
+func (h *H) addEval(d evalDesc, kind string) { h.addEvalOpt(d, kind, true) }
+
+// addEvalOpt: toCoq=false keeps the case on the harness side (references only)
+func (h *H) addEvalOpt(d evalDesc, kind string, toCoq bool) {
 	out, perr := callField(d.Shape, d.P)
 	deg := degenerate(d.Shape)
 	c := hx.Case{Kind: kind, Desc: d, Key: key(d), Nontriv: true, FailKey: deg}
@@ -423,7 +426,7 @@ func (h *H) addEval(d evalDesc, kind string) {
 		c.GoFail = fmt.Sprintf("value is %v", out)
 	default:
 		c.Coq = "CGo"
-		if coqable(d.Shape) {
+		if toCoq && coqable(d.Shape) {
 			c.Coq = fmt.Sprintf("(CEval %s %s %s %s %s)", hx.CoqBool(d.Exact), coqShape(d.Shape), vq(d.P), fq(out), fq(tol))
 		}
 		if want, ok := combine(d.Shape, d.P); ok && want != out && !(math.IsNaN(want) && math.IsNaN(out)) {
@@ -510,6 +513,39 @@ func (h *H) lipBatch(r *hx.Rng, s Shape, n int) {
 	}
 }
 
+func mixSeed(z uint64) uint64 {
+	z = (z ^ (z >> 30)) * 0xBF58476D1CE4E5B9
+	z = (z ^ (z >> 27)) * 0x94D049BB133111EB
+	z ^= z >> 31
+	z = (z + 0x632BE59BD9B4E019) * 0xD6E8FEB86659FD93
+	return z ^ (z >> 32)
+}
+
+// wideRotations: see the call site
+func (h *H) wideRotations(r *hx.Rng, n int, op string) {
+	sub := make([]Shape, n)
+	for i := range sub {
+		sub[i] = genPrimitive(r, hx.Pick(r, primitives))
+	}
+	p := genPointNear(r, Shape{T: op, Sub: []Shape{sub[r.Intn(n)]}})
+	dec := 0
+	best, _ := ref(sub[0], p)
+	for i := 1; i < n; i++ {
+		v, _ := ref(sub[i], p)
+		if (op == "union" && v < best) || (op == "intersect" && v > best) {
+			best, dec = v, i
+		}
+	}
+	for pos := 0; pos < n; pos++ {
+		rot := make([]Shape, n)
+		for i := range rot {
+			rot[(i+pos-dec+n)%n] = sub[i]
+		}
+		h.run.Count(fmt.Sprintf("wide:%s:n=%d", op, n))
+		h.addEvalOpt(evalDesc{Shape{T: op, Sub: rot}, p, false}, "eval", n <= 14 && (pos == 0 || pos == n-1))
+	}
+}
+
 func main() {
 	run := hx.ParseFlags("C19", "Check.C19")
 	h := &H{run: run}
@@ -553,7 +589,9 @@ func main() {
 		run.Finish()
 		return
 	}
-	r := hx.NewRng(run.Seed)
+	// hx.NewRng(seed) starts the one SplitMix orbit at position seed: the streams of nearby seeds are shifted copies of
+	// each other and merge as soon as they align at a case boundary.  Scatter the seeds over the orbit first.
+	r := hx.NewRng(mixSeed(run.Seed))
 	// fixed corner cases + the exact stream
 	for _, d := range exactStream() {
 		h.addEval(d, "eval-exact")
@@ -617,6 +655,22 @@ func main() {
 		h.addScaled(scaledDesc{Shape: s, K: sc.K, S: sc.S, P: p})
 		if i%2 == 0 {
 			h.addPair(pairDesc{s, p, genNeighbour(r, s, p)}, "lip")
+		}
+	}
+	// wide n-ary operators, every operand position decisive in turn: the operand that decides min / max at p (by the
+	// references) is rotated through every index 0..n-1 of the operand list (n up to 33: past any arity special
+	// case or chunk size); two rotations per shape also go through the Coq model
+	wides := []int{r.Range(9, 14), 17}
+	if run.Tier == "thorough" {
+		wides = []int{6, 8, 9, 10, 12, 14, 16, 17, 24, 32, 33, 40}
+	} else if r.Bool() {
+		wides = append(wides, 33)
+	} else {
+		wides = append(wides, r.Range(4, 8))
+	}
+	for _, nOps := range wides {
+		for _, op := range []string{"union", "intersect"} {
+			h.wideRotations(r, nOps, op)
 		}
 	}
 	// sdf.VarryingThicknessLine: the union of the rounded cones between consecutive points
